@@ -185,6 +185,15 @@ def norm_cell(v):
     return ('s', str(v))
 
 
+def stable_code(v):
+    """Order-independent integer code of a cell value (0 = missing)."""
+    import zlib
+    key = norm_cell(v)
+    if key == ('nan',):
+        return 0
+    return 1 + zlib.crc32(repr(key).encode()) % 1000000007
+
+
 class Codebook(object):
     def __init__(self):
         self.codes = {('nan',): 0}
@@ -321,3 +330,49 @@ def abstract(case, obs, result, tables, tid):
             o['rows'].append(r)
     rec['obs'] = o
     return rec
+
+
+# ------------------------------------------------------- rows for relational laws
+def law_rows(case, result, tables, with_cells=True):
+    """Result rows as <<l, r, k, a, b, o, n, m, cells...>> (see spec/TraceLaws.tla)."""
+    if result is None:
+        return None
+    ltable, rtable = tables
+    lkey, rkey = case.get('lkey', 'id'), case.get('rkey', 'id')
+    lattr, rattr = case.get('lattr', 's'), case.get('rattr', 's')
+    lpre, rpre = case.get('lpre', 'l_'), case.get('rpre', 'r_')
+    meas = case['meas']
+    lval = dict(zip(ltable[lkey].tolist(), ltable[lattr].tolist()))
+    rval = dict(zip(rtable[rkey].tolist(), rtable[rattr].tolist()))
+    if meas == 'EDIT_DISTANCE':
+        oracle = make_tokenizer(case['tok'], return_set=False)
+    else:
+        oracle = make_tokenizer(case['tok'], return_set=True)
+    cache = {}
+
+    def toks(v):
+        if v not in cache:
+            cache[v] = set(oracle.tokenize(v))
+        return cache[v]
+    cols = [str(c) for c in result.columns]
+    cix = {c: j for j, c in enumerate(cols)}
+    rows = []
+    skip = {'_id', lpre + lkey, rpre + rkey, '_sim_score'}
+    cell_cols = [j for j, c in enumerate(cols) if c not in skip]
+    for row in result.to_dict('split')['data']:
+        l = row[cix[lpre + lkey]] if lpre + lkey in cix else None
+        r = row[cix[rpre + rkey]] if rpre + rkey in cix else None
+        lv, rv = lval.get(l), rval.get(r)
+        if is_missing(lv) or is_missing(rv):
+            o, n, m = -1, -1, -1
+        elif meas == 'EDIT_DISTANCE':
+            o, n, m = len(toks(lv) & toks(rv)), len(lv), len(rv)
+        else:
+            a, b = toks(lv), toks(rv)
+            o, n, m = len(a & b), len(a), len(b)
+        sc = score_code(row[cix['_sim_score']], meas) if '_sim_score' in cix else [0, 0, 0]
+        out = [key_code(l), key_code(r)] + sc + [o, n, m]
+        if with_cells:
+            out += [stable_code(row[j]) for j in cell_cols]
+        rows.append(out)
+    return rows
